@@ -114,7 +114,7 @@ m = {
     ],
     "checks": checks,
     "not_applicable": na,
-    "notes": "Five genuine defects were repaired by fix: commits in /repo (12857a3 C05, adad8bc C15, d8b5a10 C14, afb8dd7 C01, d743b69 C15/C16); see KNOWN_FINDINGS.txt and DESIGN.md section 5.",
+    "notes": "Six genuine defects were repaired by fix: commits in /repo (12857a3 C05, adad8bc C15, d8b5a10 C14, afb8dd7 C01, d743b69 C15/C16, fb5f9af C15); see KNOWN_FINDINGS.txt and DESIGN.md section 5.",
 }
 json.dump(m, open(os.path.join(ROOT, "MANIFEST.json"), "w"), indent=1)
 print("checks=%d not_applicable=%d" % (len(checks), len(na)))
